@@ -3,6 +3,7 @@ package otto
 import (
 	"fmt"
 	"math"
+	"math/big"
 	"regexp"
 	"strconv"
 	"unicode/utf16"
@@ -54,6 +55,11 @@ func numberToStringRadix(value Value, radix int) string {
 	// FIXME This is very broken
 	// Need to do proper radix conversion for floats, ...
 	// This truncates large floats (so bad).
+	if math.Abs(float) >= 1<<63 {
+		// Does not fit an int64: convert the (integral) value exactly.
+		integer, _ := new(big.Float).SetFloat64(float).Int(nil)
+		return integer.Text(radix)
+	}
 	return strconv.FormatInt(int64(float), radix)
 }
 
